@@ -2,6 +2,7 @@ package calcium
 
 import (
 	"context"
+	"sort"
 	"sync"
 
 	enginefactory "github.com/projecteru2/core/engine/factory"
@@ -13,6 +14,8 @@ import (
 	"github.com/projecteru2/core/store"
 	"github.com/projecteru2/core/types"
 	"github.com/projecteru2/core/utils"
+
+	"golang.org/x/exp/slices"
 )
 
 // AddNode adds a node
@@ -291,10 +294,9 @@ func (c *Calcium) filterNodes(ctx context.Context, nodeFilter *types.NodeFilter)
 			return
 		}
 		// sorted by nodenames
-		nodenames := utils.Map(ns, func(node *types.Node) string { return node.Name })
+		sort.SliceStable(ns, func(i, j int) bool { return ns[i].Name < ns[j].Name })
 		// unique
-		p := utils.Unique(nodenames, func(i int) string { return nodenames[i] })
-		ns = ns[:p]
+		ns = slices.CompactFunc(ns, func(a, b *types.Node) bool { return a.Name == b.Name })
 	}()
 
 	if len(nodeFilter.Includes) != 0 {
